@@ -5,16 +5,26 @@
 // taps on the ROB's Top and Bottom ports give the acceptance order, the
 // shadow-request order and the release order; the oracle is a pure ordering /
 // identity check over that log.
+//
+// A scripted controller sends control episodes (Reset, Pause..Enable,
+// Drain..Enable, Pause..Reset, Drain with a Reset queued behind it) to the
+// ROB's Control port at PRNG-chosen points of the traffic. The stub keeps
+// answering every shadow request it ever received, so after a Reset its answers
+// to dropped shadow requests arrive late, while new requests are in flight. The
+// acknowledgement of a Reset (Send on the Control port) closes an epoch; every
+// oracle is applied per epoch.
 package main
 
 import (
 	"encoding/json"
 	"fmt"
 	"math/rand"
+	"sort"
 
 	"verifharness/kit"
 	"verifharness/kit/sim"
 
+	"github.com/sarchlab/akita/v5/mem/memcontrolprotocol"
 	"github.com/sarchlab/akita/v5/mem/memprotocol"
 	"github.com/sarchlab/akita/v5/mem/rob"
 	"github.com/sarchlab/akita/v5/messaging"
@@ -41,25 +51,40 @@ func newAgent(reg modeling.Registrar, name, port string, freq timing.Freq, buf i
 }
 
 type cfg struct {
-	Seed         int64  `json:"seed"`
-	BufferSize   int    `json:"rob_buffer_size"`
-	ReqPerCycle  int    `json:"rob_req_per_cycle"`
-	RobPortBuf   int    `json:"rob_port_buf"`
-	RobMHz       int    `json:"rob_mhz"`
-	Requesters   int    `json:"requesters"`
-	ReqPortBuf   int    `json:"requester_port_buf"`
-	ReqsEach     int    `json:"reqs_each"`
-	ReadPct      int    `json:"read_pct"`
-	NumAddrs     int    `json:"num_addrs"`
-	IdlePct      int    `json:"requester_idle_pct"`
-	RspStallPct  int    `json:"requester_rsp_stall_pct"` // back-pressure on Top
-	StubMHz      int    `json:"stub_mhz"`
-	StubPortBuf  int    `json:"stub_port_buf"`
-	StubPolicy   string `json:"stub_policy"` // random | lifo | hold_oldest | fifo
-	StubMaxDelay int    `json:"stub_max_delay"`
-	StubStallPct int    `json:"stub_accept_stall_pct"`
-	StubWidth    int    `json:"stub_width"`
-	SharedConn   bool   `json:"shared_conn"`
+	Seed         int64     `json:"seed"`
+	BufferSize   int       `json:"rob_buffer_size"`
+	ReqPerCycle  int       `json:"rob_req_per_cycle"`
+	RobPortBuf   int       `json:"rob_port_buf"`
+	RobMHz       int       `json:"rob_mhz"`
+	Requesters   int       `json:"requesters"`
+	ReqPortBuf   int       `json:"requester_port_buf"`
+	ReqsEach     int       `json:"reqs_each"`
+	ReadPct      int       `json:"read_pct"`
+	NumAddrs     int       `json:"num_addrs"`
+	IdlePct      int       `json:"requester_idle_pct"`
+	RspStallPct  int       `json:"requester_rsp_stall_pct"` // back-pressure on Top
+	StubMHz      int       `json:"stub_mhz"`
+	StubPortBuf  int       `json:"stub_port_buf"`
+	StubPolicy   string    `json:"stub_policy"` // random | lifo | hold_oldest | fifo
+	StubMaxDelay int       `json:"stub_max_delay"`
+	StubStallPct int       `json:"stub_accept_stall_pct"`
+	StubWidth    int       `json:"stub_width"`
+	SharedConn   bool      `json:"shared_conn"`
+	Episodes     []episode `json:"control_episodes"`
+}
+
+// episode is one control episode. It starts when the requesters together have
+// issued AfterIssued requests.
+//
+//	reset        Reset
+//	pause_enable Pause, Hold cycles after its ack Enable
+//	drain_enable Drain, Hold cycles after its ack Enable
+//	pause_reset  Pause, Hold cycles after its ack Reset ("Pause -> Reset" of the protocol document)
+//	drain_reset  Drain and, without waiting, Reset (queued behind the Drain on the Control port)
+type episode struct {
+	AfterIssued int    `json:"after_issued"`
+	Kind        string `json:"kind"`
+	Hold        int    `json:"hold_cycles"`
 }
 
 func drawCfg(rng *rand.Rand, reqs int) cfg {
@@ -85,6 +110,24 @@ func drawCfg(rng *rand.Rand, reqs int) cfg {
 		SharedConn:   rng.Intn(3) == 0,
 	}
 	c.ReqsEach = reqs/c.Requesters + rng.Intn(reqs/4+1)
+	// control episodes in the middle of the traffic; one case in six has none
+	if rng.Intn(6) != 0 {
+		total := c.ReqsEach * c.Requesters
+		n := 1 + rng.Intn(4)
+		at := map[int]bool{}
+		for len(at) < n {
+			at[2+rng.Intn(total*9/10)] = true
+		}
+		var pts []int
+		for a := range at {
+			pts = append(pts, a)
+		}
+		sort.Ints(pts)
+		kinds := []string{"reset", "reset", "reset", "reset", "pause_enable", "drain_enable", "pause_reset", "drain_reset"}
+		for _, a := range pts {
+			c.Episodes = append(c.Episodes, episode{AfterIssued: a, Kind: kinds[rng.Intn(len(kinds))], Hold: pick(0, 2, 10, 50, 200)})
+		}
+	}
 	return c
 }
 
@@ -140,11 +183,16 @@ func main() {
 		Level: "exploration",
 		Rule: "each case is a PRNG-drawn isolated reorder buffer (BufferSize 1-16, 1-4 requests per cycle, port buffers 1-8, mixed clocks) between 1-3 scripted requesters " +
 			"(read/write mixes over 1-64 addresses, idle gaps, stalls in draining responses = back-pressure on Top) and a stub lower unit that answers in random / newest-first / " +
-			"oldest-held-back / in-order fashion with delays 0-40 cycles and accept stalls. Non-trivial: the stub completed at least one request before an older one and >= 10 responses " +
-			"were released; distinct by configuration JSON",
+			"oldest-held-back / in-order fashion with delays 0-40 cycles and accept stalls. Five cases in six also contain 1-4 control episodes sent to the ROB's Control port when the " +
+			"requesters have issued a PRNG-chosen number of requests: Reset, Pause..Enable, Drain..Enable, Pause..Reset, or Drain with a Reset queued behind it (hold 0-200 cycles); the stub " +
+			"keeps answering shadow requests a Reset dropped, so their answers arrive late, among the answers to new requests. Non-trivial: the stub completed at least one request before " +
+			"an older one and >= 10 responses were released; distinct by configuration JSON",
 		Assumptions: []string{
-			"the lower unit answers every shadow request exactly once (RspTo = shadow id); no control traffic (Pause/Drain/Reset) during the run",
+			"the lower unit answers every shadow request exactly once (RspTo = shadow id), also those the ROB dropped at a Reset",
 			"acceptance order = order of RetrieveIncoming on the ROB's Top port; release order = order of Send on the Top port",
+			"mem/CONTROL_PROTOCOL.md: Reset is acknowledged in the tick that performs it, drops in-flight transactions and drains the Top/Bottom queues; hence the Send of a successful Reset Rsp " +
+				"on the Control port closes an epoch: requests accepted before it are answered before it or never, requests taken off Top without a shadow request at that instant are discarded",
+			"Pause/Drain/Enable do not change what is owed: order and completeness are judged across them",
 		},
 		Plan: func(tier string, seed int64) []kit.Batch {
 			nb, n, reqs := 16, 40, 120
@@ -160,7 +208,9 @@ func main() {
 		},
 		Run: run,
 		MustObserve: []string{"responses_released_and_checked", "lower_unit_out_of_order_completions", "releases_held_behind_older_request",
-			"cases_rob_filled_to_capacity", "cases_with_top_backpressure"},
+			"cases_rob_filled_to_capacity", "cases_with_top_backpressure",
+			"resets_with_requests_in_flight", "late_lower_unit_answers_to_dropped_shadows_after_reset", "late_answers_arriving_while_new_requests_in_flight",
+			"pauses_with_requests_in_flight", "drains_with_requests_in_flight", "cases_without_control_traffic"},
 	})
 }
 
@@ -184,9 +234,7 @@ func runCase(c *kit.Case, cf cfg) {
 
 	// stub lower unit
 	st := &stub{sentData: map[uint64][]byte{}, sentKind: map[uint64]bool{}}
-	var stubComp *modeling.Component[none, none, none]
-	stubComp, st.port = newAgent(reg, "Stub", "Top", mhz(cf.StubMHz), cf.StubPortBuf, func() bool { return st.tick(cf, rng) })
-	_ = stubComp
+	_, st.port = newAgent(reg, "Stub", "Top", mhz(cf.StubMHz), cf.StubPortBuf, func() bool { return st.tick(cf, rng) })
 
 	// the reorder buffer under test
 	spec := rob.DefaultSpec()
@@ -199,7 +247,7 @@ func runCase(c *kit.Case, cf cfg) {
 		rb.AssignPort(n, modeling.MakePortBuilder().WithRegistrar(reg).WithComponent(rb).
 			WithSpec(modeling.PortSpec{BufSize: cf.RobPortBuf}).Build(n))
 	}
-	top, bottom := rb.GetPortByName("Top"), rb.GetPortByName("Bottom")
+	top, bottom, control := rb.GetPortByName("Top"), rb.GetPortByName("Bottom"), rb.GetPortByName("Control")
 
 	// requesters
 	var reqs []*requester
@@ -223,6 +271,18 @@ func runCase(c *kit.Case, cf cfg) {
 		comps = append(comps, comp)
 	}
 
+	// controller
+	ctl := &controller{eps: cf.Episodes, dst: control.AsRemote(), sent: map[string]int{}, issued: func() int {
+		n := 0
+		for _, q := range reqs {
+			n += q.next
+		}
+		return n
+	}}
+	var ctlComp *modeling.Component[none, none, none]
+	ctlComp, ctl.port = newAgent(reg, "Ctl", "Ctrl", timing.GHz, 2, ctl.tick)
+	comps = append(comps, ctlComp)
+
 	connTop := directconnection.MakeBuilder().WithRegistrar(reg).Build("ConnTop")
 	connBot := connTop
 	if !cf.SharedConn {
@@ -234,11 +294,16 @@ func runCase(c *kit.Case, cf cfg) {
 	}
 	connBot.PlugIn(bottom)
 	connBot.PlugIn(st.port)
+	connCtl := directconnection.MakeBuilder().WithRegistrar(reg).Build("ConnCtl")
+	connCtl.PlugIn(control)
+	connCtl.PlugIn(ctl.port)
 
-	tap := sim.AttachTap([]messaging.Port{top, bottom, st.port}, engine.CurrentTime, true)
+	tap := sim.AttachTap([]messaging.Port{top, bottom, control, st.port}, engine.CurrentTime, true)
 	tap.Filter = func(pos, port string) bool {
 		return (port == top.Name() && (pos == "retr_in" || pos == "send")) ||
-			(port == bottom.Name() && pos == "send") || (port == st.port.Name() && pos == "send")
+			(port == bottom.Name() && (pos == "send" || pos == "recv")) ||
+			(port == control.Name() && (pos == "send" || pos == "retr_in")) ||
+			(port == st.port.Name() && pos == "send")
 	}
 
 	for _, cmp := range comps {
@@ -250,168 +315,314 @@ func runCase(c *kit.Case, cf cfg) {
 	}
 
 	// ---- oracle ----
+	// The log is cut into epochs at every acknowledgement of a Reset (Send of
+	// the Rsp on the ROB's Control port). Reset "drops in-flight" and "drains
+	// the Top/Bottom queues": the requests the ROB takes off its Top port while
+	// it handles the Reset are discarded, not accepted.
 	type acc struct {
 		msg messaging.Msg
 		idx int // position in the tap log
 	}
-	var accepted, shadows, released []acc
-	stubRspAt := map[uint64]int{} // shadow id -> log index of the stub's answer
+	type epoch struct {
+		accepted, shadows, released []acc
+		discarded                   []acc // taken off Top by the Reset that opens this epoch
+		maxOcc                      int
+		reset                       bool // closed by a Reset (false: the last epoch)
+	}
+	type where struct{ ep, k int }
+	eps := []*epoch{{}}
+	cur := eps[0]
+	stubRspAt := map[uint64]int{}     // shadow id -> log index of the stub's answer
+	shadowAt := map[uint64]where{}    // shadow id -> epoch, position
+	accIndex := map[uint64]where{}    // request id -> epoch, position
+	cancelled := map[uint64]bool{}    // request ids dropped by a Reset
+	lateAnswered := map[uint64]bool{} // dropped shadow ids whose answer reached Bottom after the Reset
+	ctlAcks := map[memcontrolprotocol.Command]int{}
+	var resets, resetsInFlight, dropped, discardedAtReset, late, lateBusy, pausesInFlight, drainsInFlight, ctlFailed int64
+	inDiscardRun, ackTime := false, timing.VTimeInPicoSec(0)
 	for i, rec := range tap.Recs {
-		switch {
-		case rec.Port == top.Name() && rec.Pos == "retr_in":
-			accepted = append(accepted, acc{rec.Msg, i})
-		case rec.Port == top.Name() && rec.Pos == "send":
-			released = append(released, acc{rec.Msg, i})
-		case rec.Port == bottom.Name():
-			shadows = append(shadows, acc{rec.Msg, i})
-		case rec.Port == st.port.Name():
-			stubRspAt[rec.Msg.Meta().RspTo] = i
-		}
-	}
-	accIndex := map[uint64]int{}
-	for k, a := range accepted {
-		accIndex[a.msg.Meta().ID] = k
-	}
-	wit := func(msg string, k int) map[string]any {
-		w := map[string]any{"msg": msg, "cfg": cf, "position": k}
-		if k < len(accepted) {
-			w["accepted_k"] = fmt.Sprintf("%+v", accepted[k].msg.Meta())
-		}
-		if k < len(released) {
-			w["released_k"] = fmt.Sprintf("%+v", released[k].msg.Meta())
-		}
-		return w
-	}
-
-	// shadows mirror accepted requests one for one, in order
-	for k := 0; k < len(shadows) && k < len(accepted); k++ {
-		if d := sameRequest(accepted[k].msg, shadows[k].msg); d != "" {
-			c.Fail("rob/shadow-differs-from-request", wit("shadow request #"+fmt.Sprint(k)+" "+d, k))
-			break
-		}
-		sm := shadows[k].msg.Meta()
-		if sm.Src != bottom.AsRemote() || sm.Dst != st.port.AsRemote() {
-			c.Fail("rob/shadow-misrouted", wit(fmt.Sprintf("shadow #%d Src=%s Dst=%s", k, sm.Src, sm.Dst), k))
-			break
-		}
-	}
-	if len(shadows) != len(accepted) {
-		c.Fail("rob/shadow-count", wit(fmt.Sprintf("%d requests accepted, %d shadow requests issued", len(accepted), len(shadows)), 0))
-	}
-
-	held := int64(0)
-	for k, rel := range released {
-		m := rel.msg.Meta()
-		if k >= len(accepted) {
-			c.Fail("rob/extra-response", wit(fmt.Sprintf("release #%d (RspTo=%d) but only %d requests were accepted", k, m.RspTo, len(accepted)), k))
-			break
-		}
-		want := accepted[k].msg.Meta()
-		if m.RspTo != want.ID {
-			if j, ok := accIndex[m.RspTo]; ok {
-				c.Fail("rob/release-order", wit(fmt.Sprintf("release #%d answers the request accepted as #%d (id %d); #%d (id %d) was due", k, j, m.RspTo, k, want.ID), k))
-			} else {
-				c.Fail("rob/rspto-not-a-request-id", wit(fmt.Sprintf("release #%d has RspTo=%d which is no accepted request id (due: %d)", k, m.RspTo, want.ID), k))
-			}
-			break // everything after the first misordering is a consequence
-		}
-		if m.Dst != want.Src {
-			c.Fail("rob/response-wrong-dst", wit(fmt.Sprintf("release #%d Dst=%s, requester was %s", k, m.Dst, want.Src), k))
-		}
-		if m.Src != top.AsRemote() {
-			c.Fail("rob/response-wrong-src", wit(fmt.Sprintf("release #%d Src=%s", k, m.Src), k))
-		}
-		if k >= len(shadows) {
+		isTopRetr := rec.Port == top.Name() && rec.Pos == "retr_in"
+		if isTopRetr && inDiscardRun && rec.Time == ackTime {
+			cur.discarded = append(cur.discarded, acc{rec.Msg, i})
+			cancelled[rec.Msg.Meta().ID] = true
 			continue
 		}
-		sid := shadows[k].msg.Meta().ID
-		at, answered := stubRspAt[sid]
-		if !answered || at > rel.idx {
-			c.Fail("rob/released-before-lower-unit-answered", wit(fmt.Sprintf("release #%d precedes the lower unit's answer to shadow %d", k, sid), k))
-		}
-		_, isRead := accepted[k].msg.(memprotocol.ReadReq)
-		switch rsp := rel.msg.(type) {
-		case memprotocol.DataReadyRsp:
-			if !isRead {
-				c.Fail("rob/response-wrong-kind", wit(fmt.Sprintf("write #%d answered with DataReadyRsp", k), k))
-			} else if string(rsp.Data) != string(st.sentData[sid]) {
-				c.Fail("rob/read-data-not-lower-units", wit(fmt.Sprintf("release #%d carries %x, the lower unit answered shadow %d with %x", k, rsp.Data, sid, st.sentData[sid]), k))
+		inDiscardRun = false
+		switch {
+		case isTopRetr:
+			accIndex[rec.Msg.Meta().ID] = where{len(eps) - 1, len(cur.accepted)}
+			cur.accepted = append(cur.accepted, acc{rec.Msg, i})
+			if o := len(cur.accepted) - len(cur.released); o > cur.maxOcc {
+				cur.maxOcc = o
 			}
-		case memprotocol.WriteDoneRsp:
-			if isRead {
-				c.Fail("rob/response-wrong-kind", wit(fmt.Sprintf("read #%d answered with WriteDoneRsp", k), k))
-			}
-		default:
-			c.Fail("rob/response-wrong-kind", wit(fmt.Sprintf("release #%d is a %T", k, rel.msg), k))
-		}
-		// coverage: was a younger request already answered below when this one was released late?
-		if answered {
-			for j := k + 1; j < len(shadows) && j <= k+16; j++ {
-				if a2, ok := stubRspAt[shadows[j].msg.Meta().ID]; ok && a2 < at {
-					held++
-					break
+		case rec.Port == top.Name():
+			cur.released = append(cur.released, acc{rec.Msg, i})
+		case rec.Port == bottom.Name() && rec.Pos == "send":
+			shadowAt[rec.Msg.Meta().ID] = where{len(eps) - 1, len(cur.shadows)}
+			cur.shadows = append(cur.shadows, acc{rec.Msg, i})
+		case rec.Port == bottom.Name(): // an answer of the lower unit reaches the ROB
+			if w, ok := shadowAt[rec.Msg.Meta().RspTo]; ok && w.ep < len(eps)-1 {
+				late++
+				lateAnswered[rec.Msg.Meta().RspTo] = true
+				if len(cur.accepted) > len(cur.released) {
+					lateBusy++
 				}
 			}
+		case rec.Port == st.port.Name():
+			stubRspAt[rec.Msg.Meta().RspTo] = i
+		case rec.Port == control.Name() && rec.Pos == "retr_in":
+			if q, ok := rec.Msg.(memcontrolprotocol.Req); ok && len(cur.accepted) > len(cur.released) {
+				switch q.Command {
+				case memcontrolprotocol.CmdPause:
+					pausesInFlight++
+				case memcontrolprotocol.CmdDrain:
+					drainsInFlight++
+				}
+			}
+		case rec.Port == control.Name():
+			rsp, ok := rec.Msg.(memcontrolprotocol.Rsp)
+			if !ok {
+				break
+			}
+			ctlAcks[rsp.Command]++
+			if !rsp.Success {
+				ctlFailed++
+			}
+			if rsp.Command != memcontrolprotocol.CmdReset || !rsp.Success {
+				break
+			}
+			// requests taken off Top at this very instant without a shadow request belong to the Reset's clean-up,
+			// whichever side of the acknowledgement they are logged on
+			for n := len(cur.accepted); n > len(cur.shadows) && tap.Recs[cur.accepted[n-1].idx].Time == rec.Time; n = len(cur.accepted) {
+				a := cur.accepted[n-1]
+				cur.accepted = cur.accepted[:n-1]
+				delete(accIndex, a.msg.Meta().ID)
+				cancelled[a.msg.Meta().ID] = true
+				discardedAtReset++
+			}
+			resets++
+			if n := len(cur.accepted) - len(cur.released); n > 0 {
+				resetsInFlight++
+				dropped += int64(n)
+				for _, a := range cur.accepted[len(cur.released):] {
+					cancelled[a.msg.Meta().ID] = true
+				}
+			}
+			cur.reset = true
+			cur = &epoch{}
+			eps = append(eps, cur)
+			inDiscardRun, ackTime = true, rec.Time
 		}
-		r.Count("responses_released_and_checked", 1)
 	}
-	if len(accepted) != total || len(released) != len(accepted) {
-		c.Fail("rob/unanswered", wit(fmt.Sprintf("%d requests scripted, %d accepted, %d released at t=%d ps (limit %d; stub still holds %d)",
-			total, len(accepted), len(released), engine.CurrentTime(), limit, len(st.pend)), len(released)))
+	for _, e := range eps {
+		discardedAtReset += int64(len(e.discarded))
 	}
-	// every requester got exactly its own answers, in its own issue order
+
+	held, maxOcc, nAcc, nRel := int64(0), 0, 0, 0
+	for ei, e := range eps {
+		accepted, shadows, released := e.accepted, e.shadows, e.released
+		nAcc += len(accepted)
+		nRel += len(released)
+		wit := func(msg string, k int) map[string]any {
+			w := map[string]any{"msg": msg, "cfg": cf, "position": k, "epoch": ei, "epochs": len(eps),
+				"epoch_accepted": len(accepted), "epoch_released": len(released)}
+			if k < len(accepted) {
+				w["accepted_k"] = fmt.Sprintf("%+v", accepted[k].msg.Meta())
+			}
+			if k < len(released) {
+				w["released_k"] = fmt.Sprintf("%+v", released[k].msg.Meta())
+			}
+			return w
+		}
+
+		// shadows mirror accepted requests one for one, in order
+		for k := 0; k < len(shadows) && k < len(accepted); k++ {
+			if d := sameRequest(accepted[k].msg, shadows[k].msg); d != "" {
+				c.Fail("rob/shadow-differs-from-request", wit("shadow request #"+fmt.Sprint(k)+" "+d, k))
+				break
+			}
+			sm := shadows[k].msg.Meta()
+			if sm.Src != bottom.AsRemote() || sm.Dst != st.port.AsRemote() {
+				c.Fail("rob/shadow-misrouted", wit(fmt.Sprintf("shadow #%d Src=%s Dst=%s", k, sm.Src, sm.Dst), k))
+				break
+			}
+		}
+		if len(shadows) != len(accepted) {
+			c.Fail("rob/shadow-count", wit(fmt.Sprintf("%d requests accepted, %d shadow requests issued", len(accepted), len(shadows)), 0))
+		}
+
+		for k, rel := range released {
+			m := rel.msg.Meta()
+			var want messaging.MsgMeta
+			if k < len(accepted) {
+				want = accepted[k].msg.Meta()
+			}
+			if k >= len(accepted) || m.RspTo != want.ID {
+				due := "none: every accepted request of this epoch is answered"
+				if k < len(accepted) {
+					due = fmt.Sprintf("#%d (id %d)", k, want.ID)
+				}
+				if w, ok := accIndex[m.RspTo]; ok && w.ep < ei {
+					c.Fail("rob/response-to-request-dropped-by-reset", wit(fmt.Sprintf("release #%d after Reset #%d answers request id %d, accepted as #%d before that Reset (epoch %d); due: %s",
+						k, ei, m.RspTo, w.k, w.ep, due), k))
+				} else if cancelled[m.RspTo] {
+					c.Fail("rob/response-to-request-dropped-by-reset", wit(fmt.Sprintf("release #%d answers request id %d, which a Reset took off the Top port and discarded; due: %s", k, m.RspTo, due), k))
+				} else if ok && k >= len(accepted) {
+					c.Fail("rob/extra-response", wit(fmt.Sprintf("release #%d (RspTo=%d, accepted as #%d) but only %d requests were accepted", k, m.RspTo, w.k, len(accepted)), k))
+				} else if ok {
+					c.Fail("rob/release-order", wit(fmt.Sprintf("release #%d answers the request accepted as #%d (id %d); %s was due", k, w.k, m.RspTo, due), k))
+				} else {
+					c.Fail("rob/rspto-not-a-request-id", wit(fmt.Sprintf("release #%d has RspTo=%d which is no accepted request id (due: %s)", k, m.RspTo, due), k))
+				}
+				break // everything after the first misordering is a consequence
+			}
+			if m.Dst != want.Src {
+				c.Fail("rob/response-wrong-dst", wit(fmt.Sprintf("release #%d Dst=%s, requester was %s", k, m.Dst, want.Src), k))
+			}
+			if m.Src != top.AsRemote() {
+				c.Fail("rob/response-wrong-src", wit(fmt.Sprintf("release #%d Src=%s", k, m.Src), k))
+			}
+			if k >= len(shadows) {
+				continue
+			}
+			sid := shadows[k].msg.Meta().ID
+			at, answered := stubRspAt[sid]
+			if !answered || at > rel.idx {
+				c.Fail("rob/released-before-lower-unit-answered", wit(fmt.Sprintf("release #%d precedes the lower unit's answer to its shadow %d (Resets so far: %d)", k, sid, ei), k))
+			}
+			_, isRead := accepted[k].msg.(memprotocol.ReadReq)
+			switch rsp := rel.msg.(type) {
+			case memprotocol.DataReadyRsp:
+				if !isRead {
+					c.Fail("rob/response-wrong-kind", wit(fmt.Sprintf("write #%d answered with DataReadyRsp", k), k))
+				} else if string(rsp.Data) != string(st.sentData[sid]) {
+					c.Fail("rob/read-data-not-lower-units", wit(fmt.Sprintf("release #%d carries %x, the lower unit answered shadow %d with %x (Resets so far: %d)", k, rsp.Data, sid, st.sentData[sid], ei), k))
+				}
+			case memprotocol.WriteDoneRsp:
+				if isRead {
+					c.Fail("rob/response-wrong-kind", wit(fmt.Sprintf("read #%d answered with WriteDoneRsp", k), k))
+				}
+			default:
+				c.Fail("rob/response-wrong-kind", wit(fmt.Sprintf("release #%d is a %T", k, rel.msg), k))
+			}
+			// coverage: was a younger request already answered below when this one was released late?
+			if answered {
+				for j := k + 1; j < len(shadows) && j <= k+16; j++ {
+					if a2, ok := stubRspAt[shadows[j].msg.Meta().ID]; ok && a2 < at {
+						held++
+						break
+					}
+				}
+			}
+			r.Count("responses_released_and_checked", 1)
+		}
+		if e.maxOcc > maxOcc {
+			maxOcc = e.maxOcc
+		}
+		if e.maxOcc > cf.BufferSize {
+			c.Fail("rob/over-capacity", wit(fmt.Sprintf("%d transactions in flight with BufferSize %d", e.maxOcc, cf.BufferSize), 0))
+		}
+		if !e.reset && len(released) != len(accepted) {
+			c.Fail("rob/unanswered", wit(fmt.Sprintf("after the last Reset %d requests were accepted and %d released at t=%d ps (limit %d; stub still holds %d; controller at episode %d/%d step %d)",
+				len(accepted), len(released), engine.CurrentTime(), limit, len(st.pend), ctl.cur, len(ctl.eps), ctl.step), len(released)))
+		}
+	}
+	if nAcc+int(discardedAtReset) != total {
+		c.Fail("rob/unanswered", map[string]any{"cfg": cf, "msg": fmt.Sprintf("%d requests scripted, %d accepted and %d discarded by Resets at t=%d ps (limit %d; controller at episode %d/%d step %d)",
+			total, nAcc, discardedAtReset, engine.CurrentTime(), limit, ctl.cur, len(ctl.eps), ctl.step)})
+	}
+
+	// Every requester got its own answers in its own issue order. An answer may
+	// be missing only for a request a Reset dropped, or for one of the last
+	// answers before a Reset (they may still have been in the Top port's
+	// outgoing buffer, which "drains Top/Bottom queues" may or may not cover).
+	mayMiss := func(id uint64) bool {
+		if cancelled[id] {
+			return true
+		}
+		w, ok := accIndex[id]
+		return ok && eps[w.ep].reset && w.k >= len(eps[w.ep].released)-cf.RobPortBuf
+	}
+	gotAfterCancel := int64(0)
 	for i, q := range reqs {
-		if len(q.got) != q.next {
-			c.Fail("rob/requester-response-count", wit(fmt.Sprintf("requester %d issued %d requests and received %d responses", i, q.next, len(q.got)), 0))
-			continue
+		k := 0
+		for n, g := range q.got {
+			id := g.Meta().RspTo
+			j := k
+			for j < q.next && q.ids[j] != id {
+				j++
+			}
+			if j == q.next {
+				c.Fail("rob/requester-sees-wrong-order", map[string]any{"cfg": cf, "msg": fmt.Sprintf("requester %d: response #%d has RspTo=%d, which is not one of its requests still unanswered (next unanswered: #%d)", i, n, id, k)})
+				break
+			}
+			for ; k < j; k++ {
+				if !mayMiss(q.ids[k]) {
+					c.Fail("rob/requester-response-missing", map[string]any{"cfg": cf, "msg": fmt.Sprintf("requester %d: request #%d (id %d) was skipped: response #%d answers its request #%d", i, k, q.ids[k], n, j)})
+				}
+			}
+			if cancelled[id] {
+				gotAfterCancel++
+			}
+			k = j + 1
 		}
-		for k, g := range q.got {
-			if g.Meta().RspTo != q.ids[k] {
-				c.Fail("rob/requester-sees-wrong-order", wit(fmt.Sprintf("requester %d: response #%d has RspTo=%d, its request #%d has id %d", i, k, g.Meta().RspTo, k, q.ids[k]), 0))
+		for ; k < q.next; k++ {
+			if !mayMiss(q.ids[k]) {
+				c.Fail("rob/requester-response-missing", map[string]any{"cfg": cf, "msg": fmt.Sprintf("requester %d issued %d requests; #%d (id %d) was never answered and no Reset dropped it", i, q.next, k, q.ids[k])})
 				break
 			}
 		}
 	}
+	if gotAfterCancel > 0 { // a cancelled request is by definition one the ROB did not release
+		c.Fail("rob/response-to-request-dropped-by-reset", map[string]any{"cfg": cf, "msg": fmt.Sprintf("%d responses reached requesters for requests a Reset had dropped", gotAfterCancel)})
+	}
 
 	// coverage
-	occ, maxOcc := 0, 0
-	for _, rec := range tap.Recs {
-		if rec.Port == top.Name() {
-			if rec.Pos == "retr_in" {
-				occ++
-			} else {
-				occ--
-			}
-			if occ > maxOcc {
-				maxOcc = occ
-			}
-		}
-	}
 	stalls := int64(0)
 	for _, q := range reqs {
 		stalls += q.stalled
 	}
-	r.Count("requests_accepted", int64(len(accepted)))
+	r.Count("requests_accepted", int64(nAcc))
 	r.Count("lower_unit_out_of_order_completions", st.ooo)
 	r.Count("releases_held_behind_older_request", held)
 	r.Count("requester_stall_ticks_with_response_waiting", stalls)
+	r.Count("resets_acknowledged", resets)
+	r.Count("resets_with_requests_in_flight", resetsInFlight)
+	r.Count("requests_in_flight_dropped_by_reset", dropped)
+	r.Count("requests_discarded_from_top_queue_by_reset", discardedAtReset)
+	r.Count("late_lower_unit_answers_to_dropped_shadows_after_reset", late)
+	r.Count("late_answers_arriving_while_new_requests_in_flight", lateBusy)
+	r.Count("pauses_with_requests_in_flight", pausesInFlight)
+	r.Count("drains_with_requests_in_flight", drainsInFlight)
+	r.Count("control_acks_pause", int64(ctlAcks[memcontrolprotocol.CmdPause]))
+	r.Count("control_acks_drain", int64(ctlAcks[memcontrolprotocol.CmdDrain]))
+	r.Count("control_acks_enable", int64(ctlAcks[memcontrolprotocol.CmdEnable]))
+	r.Count("control_acks_unsuccessful", ctlFailed)
+	if len(cf.Episodes) == 0 {
+		r.Count("cases_without_control_traffic", 1)
+	}
+	if ctl.cur < len(ctl.eps) {
+		r.Count("cases_with_unfinished_control_script", 1)
+	}
 	if maxOcc >= cf.BufferSize {
 		r.Count("cases_rob_filled_to_capacity", 1)
-	}
-	if maxOcc > cf.BufferSize {
-		c.Fail("rob/over-capacity", wit(fmt.Sprintf("%d transactions in flight with BufferSize %d", maxOcc, cf.BufferSize), 0))
 	}
 	if stalls > 0 && cf.RspStallPct >= 70 {
 		r.Count("cases_with_top_backpressure", 1)
 	}
 	r.Max("max_rob_occupancy", int64(maxOcc))
 	r.Max("max_pending_in_lower_unit", int64(st.maxPend))
+	r.Max("max_resets_in_one_case", resets)
 	r.Distinct("stub_policy/buffer_size", fmt.Sprintf("%s/%d", cf.StubPolicy, cf.BufferSize))
-	if st.ooo > 0 && len(released) >= 10 {
+	for _, e := range cf.Episodes {
+		r.Distinct("episode_kind/hold", fmt.Sprintf("%s/%d", e.Kind, e.Hold))
+	}
+	if st.ooo > 0 && nRel >= 10 {
 		j, _ := json.Marshal(cf)
 		c.Nontrivial(string(j))
 	}
-	c.Sample(map[string]any{"cfg": cf, "accepted": len(accepted), "released": len(released), "out_of_order_completions_below": st.ooo,
+	c.Sample(map[string]any{"cfg": cf, "accepted": nAcc, "released": nRel, "out_of_order_completions_below": st.ooo,
+		"resets": resets, "dropped_by_reset": dropped, "discarded_from_top_queue": discardedAtReset, "late_answers_after_reset": late,
 		"max_occupancy": maxOcc, "end_time_ps": engine.CurrentTime()})
 }
 
@@ -485,6 +696,100 @@ func (q *requester) tick(cf cfg, rng *rand.Rand, dst messaging.RemotePort) bool 
 		}
 	}
 	return progress
+}
+
+// controller runs the control episodes of the case against the ROB's Control port.
+type controller struct {
+	port    messaging.Port
+	dst     messaging.RemotePort
+	eps     []episode
+	cur     int // current episode
+	step    int // 0 waiting for the trigger, 1 first command(s) sent, 2 holding, 3 last command sent
+	hold    int
+	waitAck int
+	queue   []memcontrolprotocol.Command
+	issued  func() int
+	sent    map[string]int
+	acks    []memcontrolprotocol.Rsp
+}
+
+func (k *controller) cmd(c memcontrolprotocol.Command) {
+	k.queue = append(k.queue, c)
+	k.waitAck++
+}
+
+func (k *controller) flush() {
+	for len(k.queue) > 0 && k.port.CanSend() {
+		req := memcontrolprotocol.Req{Command: k.queue[0]}
+		req.ID = timing.GetIDGenerator().Generate()
+		req.Src, req.Dst = k.port.AsRemote(), k.dst
+		req.TrafficBytes, req.TrafficClass = 8, "memcontrolprotocol.Req"
+		k.port.Send(req)
+		k.queue = k.queue[1:]
+	}
+}
+
+func (k *controller) tick() bool {
+	for {
+		m := k.port.RetrieveIncoming()
+		if m == nil {
+			break
+		}
+		if rsp, ok := m.(memcontrolprotocol.Rsp); ok {
+			k.acks = append(k.acks, rsp)
+			k.waitAck--
+		}
+	}
+	k.flush()
+	if k.cur >= len(k.eps) {
+		return false
+	}
+	e := k.eps[k.cur]
+	settled := k.waitAck == 0 && len(k.queue) == 0
+	switch k.step {
+	case 0:
+		if k.issued() < e.AfterIssued {
+			break
+		}
+		switch e.Kind {
+		case "reset":
+			k.cmd(memcontrolprotocol.CmdReset)
+		case "pause_enable", "pause_reset":
+			k.cmd(memcontrolprotocol.CmdPause)
+		case "drain_enable":
+			k.cmd(memcontrolprotocol.CmdDrain)
+		case "drain_reset":
+			k.cmd(memcontrolprotocol.CmdDrain)
+			k.cmd(memcontrolprotocol.CmdReset)
+		}
+		k.step = 1
+	case 1:
+		if !settled {
+			break
+		}
+		if e.Kind == "reset" || e.Kind == "drain_reset" {
+			k.cur, k.step = k.cur+1, 0
+		} else {
+			k.hold, k.step = e.Hold, 2
+		}
+	case 2:
+		if k.hold > 0 {
+			k.hold--
+			break
+		}
+		if e.Kind == "pause_reset" {
+			k.cmd(memcontrolprotocol.CmdReset)
+		} else {
+			k.cmd(memcontrolprotocol.CmdEnable)
+		}
+		k.step = 3
+	case 3:
+		if settled {
+			k.cur, k.step = k.cur+1, 0
+		}
+	}
+	k.flush()
+	return true
 }
 
 func (s *stub) tick(cf cfg, rng *rand.Rand) bool {
